@@ -16,7 +16,8 @@ TITLE = "SQLite export (batches, schema evolution, visibility)"
 LEVEL = "exploration"
 RULE = (
     "cases = generated write histories: 1-4 record types with arbitrary valid type/field names (SQL keywords, Python keywords, "
-    "mixed case, multi-segment, 1..60 characters), each type in 1-3 versions that gain fields, 0-25 (thorough: up to 80) records "
+    "mixed case, multi-segment, 1..60 characters, names starting with 'sqlite' that are not the reserved 'sqlite_' prefix), each type in 1-4 "
+    "versions that gain fields or (sideways) drop some and bring new ones, 0-25 (thorough: up to 80) records "
     "interleaving types and versions, flush() calls at random positions; values drawn per field from the SQLite-mappable classes "
     "(text incl. NUL/astral/quotes, 64-bit integers incl. both limits, finite floats and +-inf, bytes incl. empty, timestamps with "
     "UTC offsets) and a set of other field types for the 'text form' clause.  Every history is written once per batch size "
@@ -35,7 +36,7 @@ ASSUMPTIONS = [
     "type names starting with 'sqlite_' are not generated (SQLite reserves that prefix for its own tables)",
     "names of one case never differ only in letter case, except in the dedicated collision cases, which are classified as the "
     "known finding sqlite-case-insensitive-identifiers",
-    "a same-named type only gains fields (a field never changes its type between versions)",
+    "a field never changes its type between the versions of a same-named type; versions may gain fields, drop fields and bring new ones",
     "integer-like field types outside the five classes (boolean, uint16, uint32, filesize, unix_file_mode) may come back either as "
     "their text form or as the same integer",
 ]
@@ -63,6 +64,7 @@ SQL_WORDS = ["select", "from", "where", "order", "group", "by", "table", "index"
              "null", "not", "and", "or", "rowid", "oid", "Order", "GROUP", "Select", "default", "check", "unique", "join", "as", "is", "in"]
 SQL_LOWER = {w.lower() for w in SQL_WORDS}
 KIND_COLLIDE = ("collide-types", "collide-fields", "collide-evolve")
+SQLITE_LIKE_NAMES = ["sqlite/history", "SQLiteDB/row", "sqlitex", "sqlite", "sqlite3/t", "Sqlite/Sequence", "sqliteX_stat1", "sqlite/sqlite_master"]
 
 
 def setup(ctx):
@@ -86,6 +88,10 @@ def generate(ctx):
             kind = "uniform"  # one type, one version: batches only
         elif i % 10 == 5:
             kind = "evolve"  # one type, three versions
+        elif i % 10 == 1:
+            kind = "sqlite-names"  # type names that start with "sqlite" without being the reserved "sqlite_" prefix
+        elif i % 10 == 9:
+            kind = "sideways"  # later versions drop fields and bring new ones (not a superset of the table)
         yield {"k": kind, "s": subseed("c18", ctx.seed, ctx.shard, i)}
 
 
@@ -196,8 +202,13 @@ def build_case(case, thorough=False):
     ('f',).  Deterministic in the recipe."""
     rng = random.Random(case["s"])
     kind = case["k"]
-    ntypes = {"uniform": 1, "evolve": 1, "collide-fields": 1, "collide-evolve": 1, "collide-types": 2}.get(kind) or rng.choice([1, 2, 2, 3, 4])
-    tnames = _unique(rng, _type_name, ntypes, set())
+    ntypes = {"uniform": 1, "evolve": 1, "collide-fields": 1, "collide-evolve": 1, "collide-types": 2, "sideways": 1}.get(kind) or rng.choice([1, 2, 2, 3, 4])
+    if kind == "sqlite-names":
+        first = rng.sample(SQLITE_LIKE_NAMES, rng.choice([1, 2]))
+        tnames = first + _unique(rng, _type_name, max(0, ntypes - len(first)), {x.lower() for x in first})
+        rng.shuffle(tnames)
+    else:
+        tnames = _unique(rng, _type_name, ntypes, set())
     if kind == "collide-types":
         tnames[1] = tnames[0].swapcase() if tnames[0].swapcase() != tnames[0] else tnames[0] + "X"
         if tnames[1].lower() != tnames[0].lower():
@@ -205,7 +216,7 @@ def build_case(case, thorough=False):
     versions = []
     for t in tnames:
         taken = {"a", "key", "select"} if kind in ("collide-fields", "collide-evolve") else set()
-        nf = rng.choice([0, 1, 2, 3, 4, 6]) if kind != "uniform" else rng.choice([1, 3, 5])
+        nf = rng.choice([2, 3, 4]) if kind == "sideways" else rng.choice([0, 1, 2, 3, 4, 6]) if kind != "uniform" else rng.choice([1, 3, 5])
         names = _unique(rng, _field_name, nf, taken)
         fields = [(_ftype(rng), n) for n in names]
         base = rng.choice(["a", "Key", "select"])
@@ -214,16 +225,30 @@ def build_case(case, thorough=False):
         elif kind == "collide-evolve":
             fields.insert(rng.randint(0, len(fields)), ("string", base))
         versions.append((t, list(fields)))
-        nver = {"uniform": 0, "evolve": 2, "collide-evolve": 1}.get(kind, rng.choice([0, 0, 1, 2]))
-        for _ in range(nver):
+        nver = {"uniform": 0, "evolve": 2, "collide-evolve": 1, "sideways": rng.choice([1, 2, 3])}.get(kind, rng.choice([0, 0, 1, 2]))
+        for step in range(nver):
             fields = list(fields)
+            sideways = (kind == "sideways" and (step == 0 or rng.random() < 0.6)) or (kind in ("mixed", "sqlite-names") and rng.random() < 0.3)
             if kind == "collide-evolve":
                 fields.append(("string", base.swapcase()))
+            elif sideways:
+                # not a superset of what the table has: drop some fields (keep at least one when there is one), bring new ones
+                # v1(name, foo, bar) -> v2(name, foo, size); or a narrow version with a new field after a widening
+                keep = [f for f in fields if rng.random() < 0.5]
+                if fields and not keep:
+                    keep = [fields[0]]
+                if len(keep) == len(fields) and fields:
+                    keep = keep[:-1]
+                fields = keep
+                for n in _unique(rng, _field_name, rng.choice([1, 1, 2]), taken):
+                    fields.insert(rng.randint(0, len(fields)), (_ftype(rng), n))
             else:
                 for n in _unique(rng, _field_name, rng.choice([1, 1, 2, 3]), taken):
                     fields.insert(rng.randint(0, len(fields)), (_ftype(rng), n))
             versions.append((t, fields))
     n = rng.choice([0, 1, 2, 3, 5, 8, 13, 21, 25]) if not thorough else rng.choice([0, 1, 3, 8, 13, 21, 34, 55, 80])
+    if kind in ("sideways", "sqlite-names"):
+        n = max(n, rng.choice([4, 6, 9]))
     plan = []
     if rng.random() < 0.1:
         plan.append(("f",))
@@ -617,6 +642,21 @@ def execute(ctx, case):
                 ctx.event("field_names_python_keyword")
             if fn != fn.lower() and fn != fn.upper():
                 ctx.event("field_names_mixed_case")
+    table_cols = {}
+    for step in plan:
+        if step[0] != "w":
+            continue
+        t, fl = versions[step[1]]
+        fs = {fn for _, fn in fl}
+        have = table_cols.get(t)
+        if have is None:
+            table_cols[t] = set(fs)
+            if t.lower().startswith("sqlite"):
+                ctx.event("type_names_starting_with_sqlite")
+            continue
+        if (fs - have) and (have - fs):
+            ctx.event("versions_not_superset_with_new_field")  # the table lacks a field of this record AND has fields it lacks
+        have |= fs
     nver = {}
     for t, _ in versions:
         nver[t] = nver.get(t, 0) + 1
@@ -659,6 +699,8 @@ def finish(ctx):
     ctx.require(ev.get("commit_points_seen", 0) > 0, "the second connection never saw a commit point")
     ctx.require(ev.get("polls_busy", 0) * 10 <= ev.get("polls", 1), "the second connection was locked out in more than 10% of the polls")
     ctx.require(ev.get("dump_comparisons", 0) > 0, "no dump was compared across batch sizes")
+    ctx.require(ev.get("type_names_starting_with_sqlite", 0) > 0, "no type name starting with 'sqlite' was written")
+    ctx.require(ev.get("versions_not_superset_with_new_field", 0) > 0, "no descriptor evolution with a non-superset version bringing a new field")
     ctx.require(ev.get("read_values_checked", 0) > 0 and ev.get("raw_cells_checked", 0) > 0, "no value was compared after reading back")
     for q in ANCHORS:
         ctx.require(ctx.reach.get(q, 0) > 0, "anchor %s was never entered" % q)
